@@ -2,7 +2,6 @@ package main
 
 import (
 	"bytes"
-	"sync"
 	"context"
 	"encoding/base64"
 	"encoding/json"
@@ -14,6 +13,7 @@ import (
 	"sort"
 	"strconv"
 	"strings"
+	"sync"
 	"time"
 )
 
@@ -71,7 +71,7 @@ func concStep(c concCall, standalone bool) *Step {
 }
 
 func concScenario(id string, calls []concCall, order []int, standalone bool, schedule []string) *Scenario {
-	sc := &Scenario{ID: id, Configs: stdConfigs()}
+	sc := &Scenario{ID: id, Configs: stdConfigs(), OwnProc: true}
 	sc.Init = concInit(calls, order, standalone)
 	st := &Step{Op: "conc", Schedule: schedule}
 	for _, c := range calls {
@@ -97,7 +97,7 @@ type concRun struct {
 	Log      []gateRec
 	Note     string
 	Outcomes map[string][]string // test -> outcomes of its calls in order
-	Final    []byte            // the shared multi-entry file afterwards
+	Final    []byte              // the shared multi-entry file afterwards
 	FinalAll map[string][]byte
 }
 
